@@ -210,6 +210,18 @@ def mg3456(F, R):
             else:
                 R.ok("MG5", e.where(), "put(left, data of right) iff right has data", detail)
     # ---- MG6
+    # every kid of the right vertex is visited: the walks over kids(right) are not left early
+    for e in raw:
+        if e.kind == "call" and e.callee.get("decl") == "std::iter::Iterator::next" and e.body is rec and e.args and \
+                mentions(e.args[0], lambda x: x[0] == "call" and x[1].endswith("::kids")):
+            try:
+                br = rec.early_exits(e.site[0])
+            except Exception:
+                br = []
+            if br:
+                R.bad("MG6", "MG6/Sodg::merge/kids-walk-stops-early", e.where(),
+                      "the walk over the kids of the right vertex can be left before the last kid (break / early return): part of the "
+                      "right tree is not grafted")
     recs = [e for e in raw if e.kind == "call" and e.path == rec.path]   # in the body or in a closure it hands to an adaptor
     R.floor("MG6", "recursive calls of the descent", len(recs), 1, rec.where())
     # right ↦ left recorded: map.insert(right, left), or entry(right) matched Vacant and filled with left
